@@ -65,6 +65,8 @@ pub struct VideoState {
   object_line_cache: [u8; 176],
   current_obj_line_cache_pixel: usize,
   current_window_line: Option<usize>,
+  /// Number of times the LCD has entered VBLANK (wraps around)
+  frames_completed: usize,
 }
 
 impl VideoState {
@@ -103,7 +105,14 @@ impl VideoState {
       object_line_cache: [0; 176],
       current_obj_line_cache_pixel: 0,
       current_window_line: None,
+      frames_completed: 0,
     }
+  }
+
+  /// How many frames have been completed (presented at the start of VBLANK)
+  /// since power-on. Only differences between two readings are meaningful.
+  pub fn get_frames_completed(&self) -> usize {
+    self.frames_completed
   }
 
   pub fn get_current_mode(&self) -> u8 {
@@ -469,6 +478,7 @@ impl VideoState {
               self.current_line = 144;
               self.current_mode = 1;
               self.lcd.swap_buffers();
+              self.frames_completed = self.frames_completed.wrapping_add(1);
               interrupt_state |= self.check_mode_interrupt();
               interrupt_state |= self.check_current_line();
               interrupt_state |= InterruptFlag::vblank();
